@@ -142,6 +142,25 @@ def run_shard(shard, acc):
             if ok:
                 acc.count("accepted_program_texts")
             check_text(acc, t, {"text": t, "accepted": ok}, accepted_source=ok)
+        # accepted sources with hostile string literals: the compiler takes a backslash followed by anything, both quote
+        # styles, triple quotes, language strings and message-switch texts
+        for _ in range(3):
+            q = rnd.choice(["'", '"', "'''", '"""'])
+            body = "".join(rnd.choice(LIT_ATOMS) for _ in range(rnd.randint(1, 6)))
+            lit = q + body + q
+            t = rnd.choice(LIT_TEMPLATES).replace("%s", lit)
+            ok = try_compile(t, acc) is not None
+            acc.count("string_literal_texts")
+            if ok:
+                acc.count("accepted_program_texts")
+                acc.count("accepted_string_literal_texts")
+            check_text(acc, t, {"text": t, "accepted": ok}, accepted_source=ok)
+
+
+LIT_ATOMS = ["a", " ", "\\t", "\\[CS:K]", "C:\\data", "30\\%", "\\\\", "\\n", "\\'", '\\"', "\\x", "'", '"', "{", "}", "//", "/*", "*/", ";", "ü",
+             "\\ü", "@l", "§"]
+LIT_TEMPLATES = ["def 0 { op(%s); }", "def 0 { op({english=%s, german=%s}); }", "def 0 { switch (message_SwitchMenu(1)) { case menu(%s): a(); } }",
+                 "def 0 {\n    message_SwitchTalk ($A) {\n        case 1: %s\n    }\n}"]
 
 
 def summarize(agg, tier):
